@@ -137,7 +137,10 @@ def create_random_binary_mask(features):
 def searchsorted(bin_locations, inputs, eps=1e-6):
     bin_locations = bin_locations.clone()
     bin_locations[..., -1] += eps
-    return torch.sum(inputs[..., None] >= bin_locations, dim=-1) - 1
+    bin_idx = torch.sum(inputs[..., None] >= bin_locations, dim=-1) - 1
+    # The last bin is closed on the right. The absolute eps above is absorbed by rounding once
+    # the last edge is large compared to eps (e.g. 50.0 in float32), so enforce it explicitly.
+    return torch.clamp(bin_idx, max=bin_locations.shape[-1] - 2)
 
 
 def cbrt(x):
